@@ -115,3 +115,35 @@ class AssignFixed:
         return (free_at(assigned_bits, n, b) and b + n <= self.length
                 and result == (assigned_bits | window(n, b))
                 and local_field.start_at == g_field.start_at and local_field.length == g_field.length)
+
+
+# ---- the explicit-position check of add_field: its second `if` statement, extracted mechanically --------------------------
+from pyvc.values import TOpt as _TOpt, TRec as _TRec, TNone as _TNone   # noqa: E402
+
+
+@contract("rig/bitfield.py::BitField.add_field@if:1")
+class AddFieldFitsCheck:
+    """`if start_at is not None and (...): raise ValueError(...)`: a field given an explicit position is rejected exactly when it
+    does not lie inside the bit field [0, length).  (What the extraction drops: the rest of add_field - the length check before it,
+    the overlap loop, tag handling and the insertion into the field tree.)"""
+    properties = ("C08",)
+    params = dict(self=_TRec("BitField", length=TInt(1, None)), length=_TOpt(TInt(1, None)), start_at=_TOpt(TInt()))
+    fragment_result = ()
+    raises = {"ValueError": None}
+
+    def native(self, length, start_at):
+        from rig.bitfield import BitField
+        b = BitField(self.length)
+        try:
+            b.add_field("f", length=length, start_at=start_at)
+        except ValueError as e:
+            return {"__native__": True, "result": (), "raised": "ValueError" if "fit within" in str(e) else None}
+        return ()
+
+    def raises_ValueError(self, length, start_at):
+        n = 1 if length is None else unopt(length)
+        return start_at is not None and not (0 <= unopt(start_at) and unopt(start_at) + n <= self.length)
+
+    def ensures_an_accepted_position_lies_inside_the_bit_field(self, length, start_at):
+        n = 1 if length is None else unopt(length)
+        return start_at is None or (0 <= unopt(start_at) and unopt(start_at) + n <= self.length)
